@@ -107,6 +107,8 @@ type script struct {
 	FailStartFor []string `json:"fail_start_for"`
 	Garbage      bool     `json:"garbage"`
 	NoCert       bool     `json:"no_cert"`
+	// OmitHost: the ServerCompatResponse leaves the optional host field unset (the runner then assumes its default)
+	OmitHost bool `json:"omit_host"`
 	DieAfterRPCs int      `json:"die_after_rpcs"`
 	// DieAfterMSFor: instance key -> milliseconds after "ready" at which that instance ends on its own
 	DieAfterMSFor map[string]int `json:"die_after_ms_for"`
@@ -567,7 +569,10 @@ func loggingServer(ctx context.Context, sc *script, req *conformancev1.ServerCom
 	if sc.NoCert {
 		resp.PemCert = nil
 	}
-	logEv("server_ready", map[string]any{"key": key, "host": host, "port": port, "has_cert": len(resp.PemCert) > 0})
+	if sc.OmitHost {
+		resp.Host = ""
+	}
+	logEv("server_ready", map[string]any{"key": key, "host": host, "port": port, "has_cert": len(resp.PemCert) > 0, "host_omitted": sc.OmitHost})
 	_, _ = os.Stdout.Write(frame(resp))
 	if ms, ok := sc.DieAfterMSFor[key]; ok {
 		go func() {
